@@ -4,7 +4,7 @@
 From Coq Require Import ZArith List Bool Floats Permutation.
 Require Import Csvq.Model.Base Csvq.Model.Value Csvq.Model.Expr Csvq.Model.Key Csvq.Model.SortVal
                Csvq.Model.Query Csvq.Model.Analytic.
-Require Import Csvq.Proofs.Analytic Csvq.Proofs.Rank.
+Require Import Csvq.Proofs.Analytic Csvq.Proofs.Rank Csvq.Proofs.Ntile.
 Import ListNotations.
 Open Scope Z_scope.
 
@@ -115,3 +115,23 @@ Example C17_rank_example :
     [([VInt 1], sv 1); ([VInt 1], sv 1); ([VInt 2], sv 2); ([VInt 3], sv 3); ([VInt 3], sv 3)]
   = Ok [VInt 1; VInt 1; VInt 3; VInt 4; VInt 4].
 Proof. vm_compute. reflexivity. Qed.
+
+(* NTILE(n) in closed form, for every partition size and every n >= 1: with per = rows / n and md = rows mod n
+   the first md tiles hold per + 1 rows and the remaining n - md tiles per rows, numbered 1, 2, ... in partition
+   order; with more tiles than rows every row is its own tile.  The sizes add up to the partition. *)
+Theorem C17_ntile_closed_form : forall strict ac ho (p : list pmember) n,
+  1 <= n ->
+  analyze_partition strict (ANtile (ELit (VInt n))) ac ho p = Ok (map VInt (expand_dense (ntile_sizes (length p) n) 0)).
+Proof.
+  intros strict ac ho p n Hn. cbn [analyze_partition]. cbn.
+  destruct (Z.ltb_spec n 1) as [L|L]; [exfalso; apply (Z.lt_irrefl 1); eapply Z.le_lt_trans; eassumption|].
+  rewrite (ntile_closed_form (length p) n Hn). reflexivity.
+Qed.
+Print Assumptions C17_ntile_closed_form.
+
+Theorem C17_ntile_sizes_cover_the_partition : forall total tiles, 1 <= tiles ->
+  zsum (ntile_sizes total tiles) = Z.of_nat total.
+Proof. exact ntile_sizes_sum. Qed.
+
+Example C17_ntile_example : ntile 7 3 = [1; 1; 1; 2; 2; 3; 3] /\ ntile 2 5 = [1; 2] /\ ntile_sizes 7 3 = [3; 2; 2].
+Proof. vm_compute. repeat split; reflexivity. Qed.
